@@ -539,6 +539,12 @@ func genC05(c *w1Case, r *simrt.Rng) {
 // axes are common.
 func genTwinAxes(c *w1Case, r *simrt.Rng, kinds []string) {
 	o := genOpts{nKeys: [2]int{1, 2}, nMaps: [2]int{1, 1}, notePool: []int{60}, actions: []string{"cc_learning"}, exitLen: -1, defaults: r.Chance(0.5), handlers: 2}
+	// in some runs the channel changes now and then: what the two handlers' axes have sent so far is forgotten then,
+	// for each of them separately
+	chans := r.Chance(0.4)
+	if chans {
+		o.actions = append(o.actions, "channel_up", "channel_down")
+	}
 	c.d = baseDesc(r, o)
 	name := stickAxes[r.Intn(4)]
 	var twins []model.AxisDesc
@@ -573,6 +579,14 @@ func genTwinAxes(c *w1Case, r *simrt.Rng, kinds []string) {
 	g := newScriptGen(r, c.d)
 	n := r.Range(10, 60)
 	for i := 0; i < n; i++ {
+		if chans && len(g.actDown) == 0 && r.Chance(0.15) {
+			for _, ak := range c.d.Actions {
+				if ak.Action == []string{"channel_up", "channel_down"}[r.Intn(2)] && g.pressAction(ak) {
+					g.release(ak.Code)
+				}
+			}
+			continue
+		}
 		hi := r.Intn(2)
 		a := twins[hi]
 		mid := int32(0)
